@@ -18,9 +18,9 @@ NA = {
     "C06": "equality between program transformations (jit/vmap/scan) of a pure function; the only shared state (JAX's jit cache) is outside the repo and keyed on static fields of frozen modules; vmap-lane isolation is data flow of one XLA program, not a schedule anyone controls",
     "C07": "derivatives of a pure function versus finite differences; no execution nondeterminism is involved",
     "C08": "metamorphic relation between two evaluations of a pure function on transformed inputs",
-    "C09": "an algebraic identity of one pure call (zero k=0 multiplier, telescoping ETDRK weights) for all states; nothing is in flight for a crash, lost message or torn write to lose or duplicate",
-    "C10": "an invariant of an iterated pure map (projection idempotence, divergence-free range); every trajectory is fixed by its initial state, so there are no alternative executions to search",
-    "C11": "a per-call norm inequality of a pure linear map, iterated; 'unconditional stability' is a statement about all dt arguments, not about timing",
+    "C09": "an algebraic identity of one pure call (zero k=0 multiplier, telescoping ETDRK weights) for all states; nothing is in flight for a crash, lost message or torn write to lose or duplicate, and -- unlike the 'returns the exact X' properties -- a history-dependent result need not break conservation, so not even the determinacy corollary this family decides is implied",
+    "C10": "an invariant of an iterated pure map (projection idempotence, divergence-free range); every trajectory is fixed by its initial state, so there are no alternative executions to search, and a history-dependent step could still be divergence-free, so the determinacy corollary is not implied",
+    "C11": "a per-call norm inequality of a pure linear map, iterated; 'unconditional stability' is a statement about all dt arguments, not about timing, and a history-dependent step could still be non-amplifying, so the determinacy corollary is not implied",
     "C12": "the injected field is a constant array fixed at construction and the laminar solution a closed form of the arguments; no schedule or fault participates",
     "C13": "differential equality between differently-parameterised constructions of the same pure map; conversions are scalar arithmetic",
     "C14": "the 'history' is a lax.scan over immutable arrays inside one pure call; no transport, consumer, concurrency or durable state exists for ordering / exactly-once / crash-recovery faults to act on; comparing with the loop model over generated arguments is stateless property-based testing, not simulation",
@@ -38,26 +38,120 @@ BASELINE_OFF = (
 )
 
 
+COMMON = 'In every simulated run -- 1-4 baton-passed caller threads pre-empted at source lines of exponax, seeded operation histories, ambient faults (clock jumps, global-RNG reseeds, gc, allocation churn, JAX/equinox cache eviction, precision-session switches), injected crashes with retry, plus crash points and single pre-emption points enumerated over the executed source lines -- every completed call must equal, to rounding, the same call evaluated alone in a fresh interpreter.'
+
+TRUSTED = "Trusted: JAX, XLA:CPU, equinox, CPython; jit-compiled calls are scheduling-atomic; fixed closed-form inputs and literal keys (no input search)."
+
+
+def claim(scope, implied, not_examined, note):
+    return dict(
+        text=f"Seeded exploration (deterministic simulation) of {scope}. {COMMON} {implied} Not examined by this technique family: {not_examined}",
+        note=f"{note} {TRUSTED}",
+    )
+
+
 CLAIMED = {
-    "C01": dict(
-        text="Seeded exploration (deterministic simulation): every linear stepper class, in every program form of the workload (construct, eager, jit, vmap, rollout, RepeatedStepper, grad, jvp, construct-inside-jit, one object shared by all callers), is executed inside simulated runs -- 1-4 baton-passed caller threads pre-empted at source lines of exponax, seeded operation histories, ambient faults (clock jumps, global-RNG reseeds, gc, allocation churn, JAX/equinox cache eviction, precision-session switches, injected crashes with retry) -- and every completed call must equal, to rounding, the same call evaluated alone in a fresh interpreter. C01 demands the exact solution to rounding for every call, so two different answers for identical arguments violate it. This is the part of C01 that can depend on a schedule, history or fault; the comparison with the analytic solution over all inputs is outside this family and not examined.",
-        note="Decides only history / interleaving / crash / ambient-state independence of the linear steppers (a necessary condition of C01). Trusted: JAX, XLA:CPU, equinox, CPython; jit-compiled calls are scheduling-atomic; fixed closed-form input states (no input search).",
+    "C01": claim(
+        "every linear stepper class in every program form of the workload (construct, eager, jit, vmap, rollout, RepeatedStepper, grad, jvp, construct-inside-jit, one object shared by all callers) and its one-option twins (dt, L, coefficient)",
+        "C01 demands the exact solution to rounding for every call (and speaks about sequences of calls), so two different answers for identical arguments violate it.",
+        "the comparison with the analytic solution and the semigroup identity over all inputs.",
+        "Decides only history / interleaving / crash / ambient-state independence of the linear steppers (a necessary condition of C01).",
     ),
-    "C06": dict(
-        text="Seeded exploration (deterministic simulation) over the program forms C06 names -- eager, filter_jit, vmap over states, rollout (scan), filter_vmap over constructor parameters, steppers constructed inside a jit-compiled rollout, RepeatedStepper, one stepper object shared by concurrent callers -- for all stepper classes: in every simulated history/interleaving/fault plan each program must return what the same program returns alone in a fresh interpreter (to rounding), so that 'compiling or mapping gives the same numbers' cannot depend on what was compiled, traced or constructed before or concurrently. The cross-form numerical comparison (jit vs eager etc.) over all inputs is outside this family and not examined.",
-        note="Decides order-of-compilation / trace-leak / cross-caller isolation of the program forms (a necessary condition of C06), not the equality between forms. Quick tier samples 28 of ~100 configurations per VERIF_SEED; thorough uses all. Trusted: JAX, XLA:CPU, equinox.",
+    "C02": claim(
+        "the ETDRK integrators of order 0-4 called directly (two dt, two contour resolutions) and constructed through every nonlinear stepper class (orders 1-4 via option twins)",
+        "C02 equates the coefficients and the step with the order-p scheme; coefficients or steps that differ between two executions with identical arguments cannot both do so.",
+        "the agreement of the coefficients with the phi-functions, the stage formulas and the convergence order (numerical analysis over inputs); the suspected `.real` defect.",
+        "Decides only that coefficient construction and stepping are free of history / interleaving / crash / session dependence (a necessary condition of C02).",
     ),
-    "C14": dict(
-        text="Seeded exploration (deterministic simulation) of rollout, repeat (with and without per-step auxiliary inputs), stack_sub_trajectories, RepeatedStepper, ForcedStepper and build_ic_set: under simulated caller threads, histories and faults every call must return what it returns alone (to rounding), i.e. the utilities and wrappers hold no state between or across calls -- the part of 'equal the naive loop' that a history, a concurrent caller or an abandoned call could break. Equality with the naive loop over all n / flag combinations is outside this family and not examined.",
-        note="Decides statelessness / re-entrancy of the trajectory utilities and wrapper steppers (a necessary condition of C14). Trusted: JAX, XLA:CPU, equinox.",
+    "C03": claim(
+        "every nonlinear-function class called directly (two dealiasing fractions on the same grid, two resolutions, 1-3 dimensions) and one step of every nonlinear stepper",
+        "C03 equates the nonlinear term with the alias-free projection of the documented operator; a term that depends on what was built before or concurrently (e.g. a stale dealiasing mask) is not that projection.",
+        "the comparison with a fine-grid oracle over inputs, all N mod 12, all dealiasing fractions.",
+        "Decides only history / interleaving / crash independence of the nonlinear functions (a necessary condition of C03).",
     ),
-    "C18": dict(
-        text="Seeded exploration (deterministic simulation) of every public IC generator and wrapper (two keys, 1-3 dimensions, pairs of configurations that differ in one option only): decides the clause 'is a deterministic function of the key' in the strong sense -- the array returned for (options, N, key) is the same to rounding whatever ran before, whatever other caller thread interleaves at source-line granularity inside exponax, whatever draw was abandoned by an injected crash and retried, and whatever clocks, global RNGs, caches, gc and the precision session did. The statistical and shape clauses of C18 (zero mean, unit std, offsets, band limits, ...) are functions of the input and are not examined by this family.",
-        note="Decides the determinism clause of C18 only. Trusted: JAX's PRNG, XLA:CPU, equinox. A hidden entropy/clock source is additionally attributed by the seam traps (evidence: ambient_seam_hits_from_package_code).",
+    "C04": claim(
+        "make_grid (all flags, both indexings), wavenumber arrays, FFT pairs, scaling arrays, filter masks and Fourier-coefficient extraction, for three domain extents and two resolutions per dimension",
+        "C04 states these conventions as identities; an array that depends on what was requested before cannot satisfy them for every call.",
+        "the mutual consistency of the conventions themselves, mode by mode (input enumeration); the suspected `indexing='xy'` defect.",
+        "Decides only determinacy of the grid / FFT helpers under histories, interleavings, crashes and session switches (a necessary condition of C04).",
     ),
-    "C19": dict(
-        text="Seeded exploration (deterministic simulation) with the precision session as simulated ambient state: jax_enable_x64 is switched at operation boundaries ('float64 once x64 is enabled'), among the other faults, while coefficients are constructed and steps taken (construct, eager, construct-inside-jit, grad forms of every stepper class; the ETDRK integrators directly). Every operation builds its objects after the switch and must return exactly the dtype and, to rounding of that dtype, the values of the same operation in a fresh session of that precision -- so nothing computed in an earlier session may leak into a later one ('never silently fall back to another precision'). Finiteness at extreme stiffness and the single-vs-double agreement bound are input-quantified and not examined.",
-        note="Decides session-faithfulness of dtype and precision across switches and histories (a necessary condition of C19). Trusted: JAX's handling of jax_enable_x64 (jit caches are keyed on it), XLA:CPU.",
+    "C05": claim(
+        "derivative and Laplace operators, `derivative` of orders 1-3, the Poisson solver (orders 2 and 4) and the incompressibility projection, for three domain extents and two resolutions per dimension",
+        "C05 demands exact results on band-limited fields for every call; results that depend on an earlier call with another extent, order or resolution are not exact.",
+        "exactness on trigonometric polynomials over inputs.",
+        "Decides only determinacy of the spectral operators (a necessary condition of C05).",
+    ),
+    "C06": claim(
+        "the program forms C06 names -- eager, filter_jit, vmap over states, rollout (scan), filter_vmap over a constructor parameter, a stepper constructed inside a jit-compiled rollout, RepeatedStepper, one stepper object called by several simulated callers -- for every stepper class",
+        "'Compiling or mapping gives the same numbers' cannot depend on what was traced, compiled or constructed before or concurrently (stale or leaked trace artefacts, first-use effects, cross-caller leakage).",
+        "the numerical equality between the forms over all inputs (translation validation / differential testing).",
+        "Decides order-of-compilation / trace-leak / cross-caller isolation of the program forms (a necessary condition of C06). Quick tier samples 28 of ~140 configurations per VERIF_SEED; thorough uses all.",
+    ),
+    "C07": claim(
+        "the gradient (of a squared-norm loss through one step) and JVP programs of every stepper class",
+        "C07 demands correct derivatives for every call; a derivative that depends on the history of the process is not the derivative of the step.",
+        "the comparison with finite differences, cotangent/tangent consistency, derivatives w.r.t. coefficients, rollout length (inputs / programs).",
+        "Decides only determinacy of the derivative programs (a necessary condition of C07).",
+    ),
+    "C08": claim(
+        "one step of every stepper class and of its option twins in 1-3 dimensions, including one object shared by all callers",
+        "The commutation f(Tu) = T f(u) relates two evaluations; if the same evaluation can return two different results, it fails for one of them.",
+        "the symmetry relations themselves (shifts, axis permutations, embeddings) -- metamorphic testing over inputs.",
+        "Decides only determinacy of a step (a necessary condition of C08; the same corollary as for C06, on the eager form).",
+    ),
+    "C12": claim(
+        "the Kolmogorov steppers and the generic vorticity stepper with injection (several forced modes and scales on the same grid), their forced nonlinear functions, and ForcedStepper with several forcings",
+        "C12 says exactly the documented field is injected at every step; a forcing that depends on which stepper was built before or concurrently is another field.",
+        "the value of the injected field against the documented formula and the laminar solution (the two suspected defects are of that kind).",
+        "Decides only history / interleaving / crash independence of the forcing terms (a necessary condition of C12).",
+    ),
+    "C13": claim(
+        "the generic, normalized and difficulty stepper families (with coefficient twins) and the normalize / denormalize / reduce / extract conversion functions",
+        "'The same dynamics' across interfaces presupposes that each interface has one dynamics; a result that depends on which interface or extent was used before breaks the equality for some order of use.",
+        "the differential equality between the interfaces and the conversion formulas over inputs.",
+        "Decides only determinacy of each interface under histories, interleavings, crashes and session switches (a necessary condition of C13).",
+    ),
+    "C14": claim(
+        "rollout (with/without init, constant and per-step aux, n = 0..5), repeat, stack_sub_trajectories (several window and trajectory lengths), RepeatedStepper, ForcedStepper (also as objects shared by all callers) and build_ic_set",
+        "The naive loop has no state between or across calls, so a utility or wrapper that does cannot equal it for every history.",
+        "equality with the loop over all n, flag combinations and pytree shapes (input enumeration).",
+        "Decides statelessness / re-entrancy of the trajectory utilities and wrapper steppers (a necessary condition of C14).",
+    ),
+    "C15": claim(
+        "map_between_resolutions (up and down, odd/even, parity collisions, both oddball settings) and FourierInterpolator (two extents, two resolutions) in 1-3 dimensions",
+        "C15 demands exact resampling for every call; a result that depends on the previous resampling configuration is not exact.",
+        "exactness for band-limited states over inputs.",
+        "Decides only determinacy of the resampling utilities (a necessary condition of C15).",
+    ),
+    "C16": claim(
+        "every exported metric, one call per operation, with several frequency bands and derivative orders on the same grid",
+        "C16 defines each metric as a quadrature of a norm; a value that depends on which band or metric was evaluated before or concurrently is not that quadrature.",
+        "metric axioms, Parseval, scaling with the domain extent (identities over inputs).",
+        "Decides only determinacy of the metrics (a necessary condition of C16).",
+    ),
+    "C17": claim(
+        "get_spectrum with power / amplitude, sum / average binning, two resolutions, 1-3 dimensions",
+        "C17 fixes bin and weight of every mode; weights that depend on the previous call's options are not those weights.",
+        "the binning and Parseval weights themselves, mode by mode (input enumeration).",
+        "Decides only determinacy of the spectrum (a necessary condition of C17).",
+    ),
+    "C18": claim(
+        "every public IC generator and wrapper (two keys, two resolutions, 1-3 dimensions), twins that differ in one option only, and function-form ICs and generator objects shared by all callers",
+        "Decides the clause 'is a deterministic function of the key' in the strong sense: the array returned for (options, N, key) is the same whatever ran before, whatever other caller interleaves inside exponax, whatever draw was abandoned and retried, whatever clocks, global RNGs, caches and the precision session did.",
+        "the statistical and shape clauses of C18 (zero mean, unit std, offsets, band limits, ...), which are functions of the input.",
+        "Decides the determinism clause of C18 only. A hidden entropy / clock source is additionally attributed by the seam traps (evidence: ambient_seam_hits_from_package_code).",
+    ),
+    "C19": claim(
+        "construct, eager, construct-inside-jit and grad forms of every stepper class and the ETDRK integrators, with the precision session owned by the simulator: jax_enable_x64 is switched at operation boundaries ('float64 once x64 is enabled') and the library must neither ignore nor change it",
+        "Every operation builds its objects after the switch and must return exactly the dtype and, to rounding of that dtype, the values of a fresh session of that precision ('never silently fall back to another precision'); a session flag left changed by library code is reported as well.",
+        "finiteness at extreme stiffness, the zero state, the single-vs-double agreement bound (inputs).",
+        "Decides session-faithfulness of dtype and precision across switches, histories and abandoned calls (a necessary condition of C19). Trusted in addition: JAX keys its caches on jax_enable_x64.",
+    ),
+    "C20": claim(
+        "malformed states (extra channel, wrong N, batch axis) offered to eleven stepper classes and to RepeatedStepper, unsupported dimensions and option combinations of constructors, interleaved with valid steps of the same classes",
+        "C20 demands rejection for every such call; here the *reference* outcome is the exception, and an operation that is accepted (or rejected with another exception type) in some history violates it.",
+        "the completeness of the validation over all wrong shapes and all documented restrictions (input enumeration).",
+        "Decides only that rejection does not depend on history, interleaving, abandoned calls or session (a necessary condition of C20).",
     ),
 }
 
@@ -112,9 +206,11 @@ def main():
         "notes": (
             "Technique family fixed by the brief: deterministic simulation with fault injection. exponax is a library of pure functions "
             "(DESIGN.md §2), so the family can decide, for any property, only its history / interleaving / crash / ambient-state "
-            "independence. That corollary is claimed for the five properties whose wording is about calls, programs, sessions or histories "
-            "(C01, C06, C14, C18, C19) and for which independently seeded changes needed exactly such a schedule or fault to manifest "
-            "(DESIGN.md §10); the other fifteen are not_applicable. audit/premise_audit.py re-checks the premise on the whole API."
+            "independence ('determinacy'). That corollary is claimed for the seventeen properties whose statement implies it (a call that must "
+            "return 'the exact X to rounding' cannot return two different things for identical arguments), each check restricted to the API the "
+            "property is anchored in; independently seeded changes that need a history, interleaving, abandoned call or session switch to manifest "
+            "were produced for twelve of them and are caught (DESIGN.md §10). C09-C11 (invariants / inequalities) do not imply determinacy and are "
+            "not_applicable. audit/premise_audit.py re-checks the no-shared-state premise on the whole API."
         ),
     }
     with open(os.path.join(HERE, "MANIFEST.json"), "w") as f:
